@@ -176,6 +176,11 @@ def modeName : Mode → String
 /-- the `n` handed to `calc_covariance_mat`: `num_data` (sample covariance) or `num_data - 1` (unbiased) -/
 def covDenom (unbiased : Bool) (n : K) : K := if unbiased then n - 1 else n
 
+/-- which covariance a mode uses: `true` = unbiased (`num_data - 1`) -/
+def modeUnbiased : Mode → Bool
+  | .invUnbiased | .unbiasedInv => true
+  | _ => false
+
 /-- the matrix handed to `np.linalg.inv`: `cov[:-1,:-1] + eye(row−1) / num_data**1.5` -/
 def extracted {m : Nat} (cov : Mat K m m) (n32 : K) : Mat K (m - 1) (m - 1) :=
   Mat.ofFn fun i j => cov.get ⟨i.val, by omega⟩ ⟨j.val, by omega⟩ + (if i = j then 1 else 0) / n32
@@ -183,6 +188,11 @@ def extracted {m : Nat} (cov : Mat K m m) (n32 : K) : Mat K (m - 1) (m - 1) :=
 /-- `(inv + inv.T) / 2`: the symmetrisation applied right after `np.linalg.inv` -/
 def symmetrise {n : Nat} (G : Mat K n n) : Mat K n n :=
   Mat.ofFn fun i j => (G.get i j + G.get j i) / (1 + 1)
+
+/-- the matrix a covariance mode hands to `np.linalg.inv` for one `(num_data, empirical distribution)` pair:
+`replace_prob_dist` (default eps), covariance with `num_data` resp. `num_data − 1`, leading block, `+ I / num_data**1.5` -/
+def extractedFor {m : Nat} (md : Mode) (q : Vec K m) (eps n n32 : K) : Mat K (m - 1) (m - 1) :=
+  extracted (covMat (replaceVec q eps) (covDenom (modeUnbiased md) n)) n32
 
 /-- one weight matrix of the `inverse_*_covariance` modes; `Ginv` is numpy's inverse of `extracted`, symmetrised.
 `row == 2`: entry `[0,0]` is filled; otherwise `weight_matrix[: row - 1, : col - 1] = inv`; last row and
@@ -217,14 +227,16 @@ structure FastWse (K : Type) (m : Nat) where
   weightMatrices : Option (List (Mat K m m))
   extW : Option (ExtW K m)
 
-/-- `_calc_extend_weight_matrix`: the block matrix of the current weight matrices, `None` when there are none -/
-def calcExt {m : Nat} (st : FastWse K m) : FastWse K m :=
+/-- `_calc_extend_weight_matrix`: the block matrix of the current weight matrices, `None` when there are none;
+an EMPTY list is an `IndexError` (`self.weight_matrices[0].shape`). -/
+def calcExt {m : Nat} (st : FastWse K m) : Except Err (FastWse K m) :=
   match st.weightMatrices with
-  | none => { st with extW := none }
-  | some ws => { st with extW := some ⟨ws⟩ }
+  | none => .ok { st with extW := none }
+  | some [] => .error .index
+  | some ws => .ok { st with extW := some ⟨ws⟩ }
 
 /-- the fast class's `set_weight_matrices`: store, then rebuild the cached block matrix -/
-def setWeightsFast {m : Nat} (st : FastWse K m) (w : Option (List (Mat K m m))) : FastWse K m :=
+def setWeightsFast {m : Nat} (st : FastWse K m) (w : Option (List (Mat K m m))) : Except Err (FastWse K m) :=
   calcExt { st with weightMatrices := w }
 
 /-- `matrix_util.is_hermitian(W, atol)` on a real matrix: `allclose(W, W.T, atol=atol, rtol=0)` -/
@@ -253,11 +265,15 @@ option, q, `set_func_prob_dists_from_standard_qt` (→ `_calc_extend_weight_matr
 `set_weight_matrices` validates, stores and rebuilds the cached matrix. -/
 def configureFast {m : Nat} (atol : K) (st : FastWse K m) (opt : Opt K m) (gradRequired : Bool)
     (Ginvs : List (Mat K (m - 1) (m - 1))) : Except Err (FastWse K m) :=
-  let st1 := calcExt st
-  let st2 := if gradRequired then calcExt st1 else st1
-  match weightsByMode opt Ginvs with
-  | none => .ok st2
-  | some w => if validWs atol w then .ok (setWeightsFast st2 w) else .error .notSymmetric
+  match calcExt st with
+  | .error e => .error e
+  | .ok st1 =>
+    match (if gradRequired then calcExt st1 else .ok st1) with
+    | .error e => .error e
+    | .ok st2 =>
+      match weightsByMode opt Ginvs with
+      | none => .ok st2
+      | some w => if validWs atol w then setWeightsFast st2 w else .error .notSymmetric
 
 end wiring
 
@@ -340,17 +356,43 @@ def configureWre (st : WreState K) (optWeights : Option (List K)) (lens : List N
   let st3 := { st2 with weights := optWeights }
   if fast then calcExtWeights st3 lens else st3
 
-/-- `StandardQTomographyBasedWeightedRelativeEntropy.value`: `Σ extW_i · vector_i` (`weights is not None`)
-or `Σ vector_i`; numpy multiplies elementwise, so lengths must agree (else ValueError). -/
+/-- numpy's elementwise product of two 1-d arrays: equal lengths, or one operand of length 1 (broadcast); else ValueError -/
+def bmul (e v : List K) : Except Unit (List K) :=
+  if e.length = v.length then .ok ((e.zip v).map fun (a, t) => a * t)
+  else match e, v with
+    | [a], _ => .ok (v.map fun t => a * t)
+    | _, [t] => .ok (e.map fun a => a * t)
+    | _, _ => .error ()
+
+/-- `StandardQTomographyBasedWeightedRelativeEntropy.value`: `np.sum(_extend_weights * vector)` (`weights is not None`, so also for
+an EMPTY weight list) or `np.sum(vector)`; `vector` = the per-outcome terms of `relative_entropy_vector` over all schedules. -/
 def fastWreSum (st : WreState K) (vector : List K) : Except Unit K :=
   match st.weights with
   | none => .ok (lsum vector)
   | some _ =>
     match st.extWeights with
     | none => .error ()            -- AttributeError: `_extend_weights` was never computed
-    | some e =>
-      if e.length ≠ vector.length ∧ e.length ≠ 1 ∧ vector.length ≠ 1 then .error ()
-      else .ok (lsum ((e.zip vector).map fun (a, t) => a * t))
+    | some e => (bmul e vector).map lsum
+
+/-- component of `StandardQTomographyBasedWeightedRelativeEntropy.gradient`: `np.dot(_extend_weights, vectors)[α]` needs equal
+lengths (no broadcast in `dot`), or `np.sum(vectors, axis=0)[α]` without weights; `col` = column α of the per-outcome vectors -/
+def fastWreDot (st : WreState K) (col : List K) : Except Unit K :=
+  match st.weights with
+  | none => .ok (lsum col)
+  | some _ =>
+    match st.extWeights with
+    | none => .error ()
+    | some e => if e.length = col.length then .ok (lsum ((e.zip col).map fun (a, t) => a * t)) else .error ()
+
+/-- the per-outcome terms of `relative_entropy_vector(q, p)` (their sum is `relEntVec`) -/
+def relEntVecTerms (epsq _epsp : K) : List K → List K → List K → List K
+  | q :: qs, _p :: ps, l :: ls => truncQ q epsq * l :: relEntVecTerms epsq _epsp qs ps ls
+  | _, _, _ => []
+
+/-- column α of `gradient_relative_entropy_2nd_vector(q, p, grad_ps)` (their sum is `relEntGradVec`) -/
+def relEntGradVecTerms (epsq epsp : K) : List K → List K → List K → List K
+  | q :: qs, p :: ps, g :: gs => (-(truncQ q epsq) / roundVarz p epsp) * g :: relEntGradVecTerms epsq epsp qs ps gs
+  | _, _, _ => []
 
 end entropy
 
@@ -469,13 +511,12 @@ def handle (args : List String) : Option String :=
   -- inverse-covariance weight inputs: the matrix handed to numpy's inv
   | ["extracted", mode, m, q, eps, n, n32] => do
       let mode ← parseMode mode
-      let unbiased := match mode with | .invUnbiased | .unbiasedInv => true | _ => false
       let m ← parseNat? m
       let q ← mkVec m (← parseList? parseRat? q)
       let eps ← parseRat? eps
       let n ← parseRat? n
       let n32 ← parseRat? n32
-      some s!"ok {showList showRat (matList (extracted (covMat (replaceVec q eps) (covDenom unbiased n)) n32))}"
+      some s!"ok {showList showRat (matList (extractedFor mode q eps n n32))}"
   -- weights in force after a sequence of configurations of a fresh object
   | "wiring" :: which :: atol :: m :: grad :: k :: rest => do
       let atol ← parseRat? atol
@@ -521,6 +562,17 @@ def handle (args : List String) : Option String :=
       match wreSum ws terms with
       | .ok v => some s!"ok {showRat v}"
       | .error _ => some "err index"
+  -- fast weighted sums on one configured object: fwre sum|dot ctorW optW lens vector
+  | ["fwre", which, grad, ctorW, optW, lens, vector] => do
+      let ctorW ← parseOptList ctorW
+      let optW ← parseOptList optW
+      let lens ← parseList? parseNat? lens
+      let vector ← parseList? parseRat? vector
+      let st := configureWre (K := Rat) ⟨ctorW, none⟩ optW lens true (grad = "true")
+      let r ← (if which = "sum" then some (fastWreSum st vector) else if which = "dot" then some (fastWreDot st vector) else none)
+      match r with
+      | .ok v => some s!"ok {showRat v}"
+      | .error _ => some "err value"
   | ["wrewiring", fast, grad, ctorW, optW, lens] => do
       let ctorW ← parseOptList ctorW
       let optW ← parseOptList optW
